@@ -144,7 +144,9 @@ func wf1(v cty.Value, path string) string {
 		if ty.IsSetType() {
 			for i := range cs {
 				for j := i + 1; j < len(cs); j++ {
-					if whollyKnownRef(cs[i]) && whollyKnownRef(cs[j]) && refRawEq(cs[i], cs[j]) {
+					// equal by the documented equality, or by the library's own raw equality (a set
+					// must not hold two members its own equality calls the same)
+					if whollyKnownRef(cs[i]) && whollyKnownRef(cs[j]) && (refRawEq(cs[i], cs[j]) || rawEq(cs[i], cs[j])) {
 						return fmt.Sprintf("%s: set holds equal members %s and %s", path, goStr(cs[i]), goStr(cs[j]))
 					}
 				}
@@ -326,6 +328,8 @@ func c06Constructors(c *Ctx) {
 		cty.ListVal([]cty.Value{cty.StringVal("x")}), cty.ListVal([]cty.Value{cty.StringVal("x").Mark(markM3)}), cty.EmptyObjectVal,
 		cty.TupleVal([]cty.Value{cty.DynamicVal}), cty.ObjectVal(map[string]cty.Value{"e\u0301": cty.StringVal("v")}),
 		cty.SetVal([]cty.Value{cty.StringVal("s")}), cty.MapVal(map[string]cty.Value{"e\u0301": cty.Zero}),
+		// one fraction held at 53, 64 and 512 bits, and the same decimal text parsed
+		cty.NumberFloatVal(0.1), cty.NumberFloatVal(0.1).Add(cty.NumberIntVal(0)), cty.NumberFloatVal(0.1).Multiply(parseNum("1")), parseNum("0.1"),
 	}
 	names := []string{"a", "e\u0301", "\u00e9", "\uac00"}
 	seqs(leaves, 2, func(ms []cty.Value) {
